@@ -368,7 +368,7 @@ func (e *Engine) invoke(st *State, recv IfaceV, ifaceT types.Type, m *types.Func
 	e.oblige(st, "safe", "nil_interface_call", Neq(recv.Tag, IntLit(0)), pos)
 	// closed interfaces: dispatch on the dynamic type
 	if ci := e.closedIface(ifaceT); ci != nil {
-		return e.dispatchClosed(st, recv, ci, m, args, res, pos)
+		return e.dispatchClosed(st, recv, ifaceT, ci, m, args, res, pos)
 	}
 	// a tag known on this path?
 	if t, ok := e.knownTag(st, recv); ok {
@@ -486,8 +486,8 @@ func pkgBase(p string) string {
 
 // dispatchClosed: case split over the declared implementations of a closed
 // interface; the obligation that the dynamic type is one of them is emitted.
-func (e *Engine) dispatchClosed(st *State, recv IfaceV, ci *ClosedIface, m *types.Func, args []Value, res ssa.Value, pos token.Pos) []*State {
-	pkgPath, _ := ifaceName(m.Type().(*types.Signature).Recv().Type())
+func (e *Engine) dispatchClosed(st *State, recv IfaceV, ifaceT types.Type, ci *ClosedIface, m *types.Func, args []Value, res ssa.Value, pos token.Pos) []*State {
+	pkgPath, _ := ifaceName(ifaceT)
 	var tp *types.Package
 	for _, p := range e.allTypesPkgs {
 		if p.Path() == pkgPath {
@@ -506,6 +506,17 @@ func (e *Engine) dispatchClosed(st *State, recv IfaceV, ci *ClosedIface, m *type
 	}
 	e.oblige(st, "pre", "closed_interface_"+ci.Name, Or(isOne...), pos)
 	var outs []*State
+	if kt, ok := e.knownTag(st, recv); ok {
+		for _, t := range impls {
+			if types.Identical(t, kt) {
+				fn := e.prog.LookupMethod(t, m.Pkg(), m.Name())
+				if fn == nil {
+					panic(unsupported("no method " + m.Name() + " on " + t.String()))
+				}
+				return e.callFunction(st, fn, append([]Value{e.unbox(st, recv, t)}, args...), nil, res, pos)
+			}
+		}
+	}
 	for i, t := range impls {
 		s := st
 		if i < len(impls)-1 {
@@ -595,7 +606,9 @@ func (e *Engine) applyContract(st *State, fn *ssa.Function, c *Contract, args []
 		}
 		for _, w := range c.Witness {
 			t := e.resolveType(pkgOf(fn), w.Type)
-			post.vars[w.Name] = wrapTyped(e.freshValue(st, "wit_"+w.Name, t), t)
+			wv := wrapTyped(e.freshValue(st, "wit_"+w.Name, t), t)
+			post.vars[w.Name] = wv
+			st.ghost["wit:"+callee+"."+w.Name] = wv
 		}
 	}
 	for _, en := range c.Ensures {
